@@ -107,6 +107,10 @@ FLOAT_FNS = {'exp', 'ln', 'log2', 'log10', 'sqrt', 'cbrt', 'powi', 'powf', 'abs'
              'recip', 'exp2', 'ln_1p', 'exp_m1', 'atan', 'atan2', 'asin', 'acos', 'sinh', 'cosh', 'mul_add',
              'hypot', 'to_degrees', 'to_radians', 'trunc', 'fract', 'is_normal', 'is_sign_negative',
              'is_sign_positive', 'abs_sub', 'copysign'}
+def is_int_tyname(ty):
+    return ty in ('usize', 'isize', 'u8', 'u16', 'u32', 'u64', 'u128', 'i8', 'i16', 'i32', 'i64', 'i128')
+
+
 FLOAT_CONSTS = {'zero': 0.0, 'one': 1.0}
 FLOAT_SENTINELS = {'max_value', 'min_value', 'infinity', 'neg_infinity', 'nan', 'epsilon', 'min_positive_value', 'neg_zero'}
 
@@ -531,13 +535,13 @@ class VG:
             return op(o, l, r)
         l = self.value(e['l'], fr)
         r = self.value(e['r'], fr)
-        if lty == 'usize' or lty in ('u8', 'u16', 'u32', 'u64', 'i32', 'i64', 'isize'):
+        if is_int_tyname(lty):
             if o in ('sub', 'add', 'mul', 'div', 'rem'):
                 self.event('int_' + o, (l, r, lty), e)
             if l[0] == 'lit' and r[0] == 'lit' and o in ('add', 'sub', 'mul') and isinstance(l[1], int) and isinstance(r[1], int):
                 return lit({'add': l[1] + r[1], 'sub': l[1] - r[1], 'mul': l[1] * r[1]}[o], 'i')
             return op('i' + o if o in ('add', 'sub', 'mul', 'div', 'rem') else o, l, r)
-        if o == 'div':
+        if o in ('div', 'rem'):
             self.event('fdiv', (l, r), e)
         return op(o, l, r)
 
@@ -567,11 +571,11 @@ class VG:
             return ('unit',)
         cur = self.read_place(p)
         lty = e['l'].get('ty', '')
-        if lty == 'usize' or lty.startswith(('u', 'i')) and lty[1:].isdigit():
+        if is_int_tyname(lty):
             self.event('int_' + o, (cur, r, lty), e)
             self.write_place(p, op('i' + o, cur, r), e)
         else:
-            if o == 'div':
+            if o in ('div', 'rem'):
                 self.event('fdiv', (cur, r), e)
             self.write_place(p, op(o, cur, r), e)
         return ('unit',)
@@ -596,6 +600,9 @@ class VG:
 
     def v_massert(self, e, fr):
         if e['name'] == 'panic':
+            # an explicit panic!/unreachable!/todo!/unimplemented! is a panic edge: the event carries the path condition,
+            # and the consumer (E3) must show that path infeasible
+            self.event('panic', (e.get('macro', 'panic'),), e)
             self.dead = True
             return unk('panic')
         args = [self.value(a, fr) for a in e['args']]
@@ -1085,9 +1092,27 @@ class VG:
                     self.event('f' + short, tuple(args), e)
                 if short == 'clamp':
                     self.event('fclamp', tuple(args), e)
+                # partial functions: a finite argument outside the domain gives NaN/inf
+                if short == 'recip':
+                    self.event('fdiv', (ONE, args[0]), e)
+                elif short == 'powf':
+                    self.event('fdomain', ('positive', args[0], 'powf base'), e)
+                elif short == 'powi' and not (args[1][0] == 'lit' and isinstance(args[1][1], int) and args[1][1] >= 0):
+                    self.event('fdiv', (ONE, args[0]), e)
+                elif short in ('asin', 'acos'):
+                    self.event('fdomain', ('unit', args[0], short + ' argument'), e)
+                elif short == 'ln_1p':
+                    self.event('fdomain', ('positive', op('add', args[0], ONE), 'ln_1p argument + 1'), e)
                 return op(short, *args)
-            if short in ('to_f64', 'to_usize', 'to_f32', 'to_i64', 'to_u64', 'to_isize', 'to_i32', 'to_u32'):
+            if short in ('to_f64', 'to_f32'):
                 return some(op(short, d(argv[0])))
+            if short in ('to_usize', 'to_i64', 'to_u64', 'to_isize', 'to_i32', 'to_u32', 'to_u8', 'to_u16', 'to_i8', 'to_i16', 'to_u128', 'to_i128'):
+                aty = e['args'][0].get('ty', '') if e.get('args') else ''
+                x = d(argv[0])
+                if is_int_tyname(aty.lstrip('&')) and short[3:] in ('u128', 'i128') :
+                    return some(op(short, x))
+                # a float (or wider integer) converts only when the value fits: presence is an opaque proposition
+                return phi(op('conv_fits:' + short, x), some(op(short, x)), NONE)
             return self.note_unknown('num-fn-' + short, e)
         # ---- Option
         if name.startswith('std::option::Option::'):
@@ -1168,7 +1193,7 @@ class VG:
             return d(argv[0])
         if name.startswith('std::ops::') and short in ('add', 'sub', 'mul', 'div', 'neg', 'rem'):
             args = [d(a) for a in argv]
-            if short == 'div':
+            if short in ('div', 'rem'):
                 self.event('fdiv', tuple(args), e)
             return op(short, *args)
         if name in ('std::mem::swap', 'std::mem::replace', 'std::mem::take'):
